@@ -223,8 +223,9 @@ def gen_battles(ctx, cmd, args, name):
 
 
 def spec_battle_model(ctx):
-    cfg = "MC_Battle.cfg" if ctx.quick else "MC_Battle_thorough.cfg"
-    r = ctx.tlc("MC_Battle", cfg=cfg, workers=NCPU, timeout=7000, heap="24g")
+    # the large bounded models run in C02's thorough tier only; the other battle properties share the quick model
+    cfg = "MC_Battle_thorough.cfg" if (not ctx.quick and ctx.prop == "C02") else "MC_Battle.cfg"
+    r = ctx.tlc("MC_Battle", cfg=cfg, workers=NCPU, timeout=14000, heap="24g")
     ctx.notes["spec_model"] = "%s: %d distinct states; Safe, RefAgree (independent flat scheduler), CycleProps, RunIsStepping, RotInv, EvProps hold" % (cfg, r["distinct"])
     if not ctx.quick and ctx.prop == "C02":
         r3 = ctx.tlc("MC_Battle", cfg="MC_Battle_3w.cfg", workers=NCPU, timeout=7000, heap="24g")
